@@ -41,6 +41,7 @@ func runC04(e *Env) {
 	r.Rule("C04.R9", "flows", "next download block from bytes held", 1)
 	r.Rule("C04.R10", "flows", "messages built to continue a transfer inherit the complete option list of their template; the block size and timeout settings reach the engine", 9)
 	r.Rule("C04.R11", "paths", "an expired (abandoned) transfer's state is never matched by a new exchange", 4)
+	r.Rule("C04.R12", "flows", "a block's bytes are owned by its message (no recycled buffer); the reassembly message's options are set once, at creation", 2)
 	prm := e.fn("C04.R1", bw+".processReceivedMessage")
 	if prm != nil {
 		c04Reassembly(e, prm)
@@ -141,6 +142,10 @@ func runC04(e *Env) {
 		for _, fn := range []string{"udp/server.Server.getOrCreateConn", "dtls/server.Server.createConn", "tcp/server.Server.createConn"} {
 			checkConfigCopy(e, "C04.R10", fn, []string{"BlockwiseSZX"})
 		}
+	}
+	if e.want("C04.R12") {
+		bodyNotFromPool(e, "C04.R12")
+		reassemblyHeaderSetOnce(e, "C04.R12")
 	}
 	if e.want("C04.R11") {
 		// same obligation as C14.R5: Cache.LoadOrStore / Load hide an entry whose deadline has passed
